@@ -206,6 +206,9 @@ func checkC11(c *Ctx) {
 		r.Unres("R11a", "BindingMiddleware handler literal", "", "not found")
 		return
 	}
+	// ---- R11f whether the body of a body verb is decoded depends on the verb only
+	r.Rule("R11f", "whether BindingMiddleware decodes the request body depends on the route's verb only, never on a property of the request (Content-Length, a header, the body being nil): an undecoded body is a malformed body that is dispatched", 1)
+	bodyDecodeGuard(c, ep, "R11f")
 	// ---- R11e the body binders decode the whole body or fail: no silently truncating reader
 	r.Rule("R11e", "the body binders read the request body through a reader that reports over-long input as an error (r.Body or http.MaxBytesReader), never a silently truncating one", 2)
 	for _, name := range []string{"bindDataFromJSONRequest", "bindDataFromBinaryRequest"} {
@@ -875,4 +878,87 @@ func totalJSONArg(arg ast.Expr, fd *ast.FuncDecl) bool {
 		return okDecl
 	}
 	return false
+}
+
+// bodyDecodeGuard — R11f. Every condition that guards the call of the body decoder inside the per-request handler of
+// BindingMiddleware may refer to registration-time values only (the verb parameter, constants). A condition that
+// reads the request (r.ContentLength, r.Header, r.Body == nil …) lets some framing of a malformed body skip the decoder:
+// the zero request is then validated and dispatched and the caller gets 200 instead of 400.
+func bodyDecodeGuard(c *Ctx, ep *EmittedPkg, rid string) {
+	r := c.R
+	fd, lit := middlewareLit(ep)
+	if fd == nil || lit == nil {
+		r.Unres(rid, "BindingMiddleware handler literal", "", "not found")
+		return
+	}
+	// objects declared inside the handler literal (its parameters and locals) are per-request values
+	perRequest := func(o types.Object) bool {
+		return o != nil && o.Pos() >= lit.Pos() && o.Pos() <= lit.End()
+	}
+	var stack []ast.Node
+	n := 0
+	ast.Inspect(lit.Body, func(nd ast.Node) bool {
+		if nd == nil {
+			stack = stack[:len(stack)-1]
+			return true
+		}
+		stack = append(stack, nd)
+		call, ok := nd.(*ast.CallExpr)
+		if !ok {
+			return true
+		}
+		f := ep.CalleeOf(call)
+		if f == nil || ep.RecName(f) != "bindDataBasedOnContentType" {
+			return true
+		}
+		n++
+		var bad []string
+		var bpos token.Pos
+		for i := len(stack) - 2; i >= 0; i-- {
+			var conds []ast.Expr
+			switch x := stack[i].(type) {
+			case *ast.IfStmt:
+				// the call lies in the body or the else arm: the condition decides either way; a call inside the
+				// condition/init itself is not guarded by it
+				if i+1 < len(stack) && (stack[i+1] == ast.Node(x.Body) || (x.Else != nil && stack[i+1] == ast.Node(x.Else))) {
+					conds = append(conds, x.Cond)
+				}
+			case *ast.CaseClause:
+				conds = append(conds, x.List...)
+				if i >= 2 {
+					if sw, ok := stack[i-2].(*ast.SwitchStmt); ok && sw.Tag != nil {
+						conds = append(conds, sw.Tag)
+					}
+				}
+			}
+			for _, cnd := range conds {
+				ast.Inspect(cnd, func(m ast.Node) bool {
+					if id, ok := m.(*ast.Ident); ok {
+						if o := ep.Info.Uses[id]; perRequest(o) {
+							if _, isVar := o.(*types.Var); isVar {
+								bad = append(bad, ep.Text(cnd))
+								if bpos == token.NoPos {
+									bpos = cnd.Pos()
+								}
+								return false
+							}
+						}
+					}
+					return true
+				})
+			}
+		}
+		// early exits ahead of the call that depend on the request and skip the decoder without an error response are
+		// covered by R11a/R02b (every dispatching path passes the binder); here only the guards around the call
+		pos := ep.GenPos(call.Pos())
+		if bpos != token.NoPos {
+			pos = ep.GenPos(bpos)
+		}
+		r.Check(len(bad) == 0, rid, "the guards around the body decoder in BindingMiddleware read registration-time values only", pos,
+			"the body decoder is called only under "+strings.Join(dedupeSorted(bad), " and ")+", a property of the individual request: a request framed so that the condition is false (chunked transfer: ContentLength is -1) carries a body that is never decoded — malformed bytes are ignored, the zero request is dispatched and answered with 200")
+		return true
+	})
+	if n == 0 {
+		r.Unres(rid, "call of bindDataBasedOnContentType in the handler literal", ep.GenPos(lit.Pos()), "not found")
+	}
 }
